@@ -95,7 +95,7 @@ Fixpoint run (K : Kernel QN) (s : st (N:=QN)) (i : nat) (ops : list (op * obs)) 
             end
         end in
       match r, ob with
-      | None, ObsUndef => 0                       (* both undefined: the history ends here *)
+      | None, ObsUndef => run K s (S i) rest      (* both undefined: the call is rejected / fails, the state is unchanged *)
       | None, ObsOk _ _ _ => 100 * (i + 1) + 8
       | Some _, ObsUndef => 100 * (i + 1) + 8
       | Some (s', log, ret), ObsOk sn olog oret =>
